@@ -675,7 +675,7 @@ func c20LibCycle(lib string) error {
 
 func drawC20(t *rapid.T) c20Case {
 	var c c20Case
-	leaves := []string{"cstruct", "cint", "cslice", "cstr", "cf32s", "cu64", "lstruct", "lint", "lslice", "cstruct", "cint", "cslice", "cstr", "time", "nullInt", "int64", "string"}
+	leaves := []string{"cstruct", "cint", "cslice", "cstr", "cf32s", "cu64", "lstruct", "lint", "lslice", "cstruct", "cint", "cslice", "cstr", "time", "nullInt", "nullTime", "nullString", "nullFloat", "nullBool", "int64", "string"}
 	n := gen.UniformRange(t, "nops", 1, 8)
 	for i := 0; i < n; i++ {
 		if gen.Uniform(t, "libcycle", 12) == 0 {
